@@ -181,3 +181,32 @@ func DeepChain(s *store.Store, name string, fanout, depth int) (cid.Cid, DirEntr
 	}
 	return child, leaf
 }
+
+// DiamondChain writes a chain of fanout-8 shards in which every shard links the
+// SAME child shard from two buckets (0 and 1); the bottom shard holds one value
+// entry. depth+1 distinct blocks, a tree expansion of 2^depth: hostile, but
+// every block is a decodable shard.
+func DiamondChain(s *store.Store, depth int) (root cid.Cid, blocks int) {
+	leaf := Leaf(s, "x")
+	mk := func(links []model.PBLink, bf byte) (cid.Cid, uint64) {
+		d := []byte{0x08, 0x05, 0x12}
+		d = protowire.AppendBytes(d, []byte{bf})
+		d = append(d, 0x28, 0x22, 0x30, 0x08)
+		blk := model.EncodePB(&model.PBNode{Data: d, HasData: true, Links: links})
+		c, _ := V1PB.Sum(blk)
+		s.Put(c, blk)
+		sz := uint64(len(blk))
+		for _, l := range links {
+			sz += l.Tsize
+		}
+		return c, sz
+	}
+	child, csz := mk([]model.PBLink{{Cid: leaf.Cid, Name: "0x", HasName: true, Tsize: leaf.Tsize, HasTsize: true}}, 0x01)
+	for i := 0; i < depth; i++ {
+		child, csz = mk([]model.PBLink{
+			{Cid: child, Name: "0", HasName: true, Tsize: csz, HasTsize: true},
+			{Cid: child, Name: "1", HasName: true, Tsize: csz, HasTsize: true},
+		}, 0x03)
+	}
+	return child, depth + 2
+}
